@@ -18,13 +18,12 @@ theorem C17_tables_correct_5_0 : ∀ a < 16, (positSqrtOk 5 0 a (tab posit_5_0_r
 theorem C17_tables_correct_8_0 : ∀ a < 128, (positSqrtOk 8 0 a (tab posit_8_0_roots a)).1 = true := by decide +kernel
 theorem C17_tables_correct_8_1 : ∀ a < 128, (positSqrtOk 8 1 a (tab posit_8_1_roots a)).1 = true := by decide +kernel
 
-/-- D1: `posit_3_1_roots[1]`. sqrt(posit<3,1>(0.25)) = 0.5 is exactly the Standard midpoint (the 4-bit posit 0011) between
-    0.25 (encoding 1, odd) and 1 (encoding 2, even): the correctly rounded result is encoding 2; the table holds 1. -/
-theorem C17_tables_3_1_counterexample : (positSqrtOk 3 1 1 (tab posit_3_1_roots 1)).1 = false := by decide +kernel
-/-- what the entry has to be -/
-theorem C17_tables_3_1_entry1_should_be_2 : (positSqrtOk 3 1 1 2).1 = true ∧ tab posit_3_1_roots 1 = 1 := by decide +kernel
-/-- all other entries of the <3,1> table are right -/
-theorem C17_tables_correct_3_1_except_entry1 : ∀ a < 4, a ≠ 1 → (positSqrtOk 3 1 a (tab posit_3_1_roots a)).1 = true := by decide +kernel
+/-- the <3,1> table after the repair of D1 (fix commit a64997b: entry 1 is 2 — sqrt(0.25) = 0.5 is exactly the Standard midpoint
+    (the 4-bit posit 0011) between 0.25 (encoding 1, odd) and 1 (encoding 2, even), so the tie goes to encoding 2). -/
+theorem C17_tables_correct_3_1 : ∀ a < 4, (positSqrtOk 3 1 a (tab posit_3_1_roots a)).1 = true := by decide +kernel
+/-- the value the pinned snapshot held in entry 1 (encoding 1 = 0.25) is NOT the correctly rounded root: the table
+    theorem above is sensitive to that entry -/
+theorem C17_tables_3_1_old_entry_rejected : (positSqrtOk 3 1 1 1).1 = false ∧ (positSqrtOk 3 1 1 2).1 = true := by decide +kernel
 
 /-- the tables have the size the look-up assumes (one entry per non-negative encoding) -/
 theorem C17_tables_sizes :
